@@ -240,6 +240,7 @@ def r2_guards(ctx):
                   key='count-bound', reason='int() of the declared '
                   'attachment count is reachable without an upper bound on '
                   'the number of digits', where=where(f, n))
+    r2b_bound_origin(ctx)
     # id scanner: loop bounded by a numeric constant, overflow rejected
     from ..sym import with_new_helpers
     loops = [n for g in with_new_helpers(m, f)
@@ -269,6 +270,78 @@ def r2_guards(ctx):
                   'run is rejected with ValueError', key='id-overflow',
                   reason='an id longer than the scanner bound is silently '
                   'split instead of rejected', where=where(f, n))
+
+
+def r2b_bound_origin(ctx):
+    """A length limit must be measured from the start of the field it
+    limits.  In the decoder every integer that is compared with a constant
+    limit (digits of the attachment count, digits of the id) is an index into
+    the frame; if that index was initialised relative to a moving position
+    (`i = pos + 1`, `dash = ep.find('-', pos)`) the comparison has to mention
+    the same position (`i - pos >= 100`), otherwise the limit silently counts
+    from the start of the frame and shrinks by the length of the preceding
+    fields."""
+    m = ctx.model
+    from ..sym import with_new_helpers
+    f = m.own_method('Packet', 'decode')
+    n = 0
+    for g in with_new_helpers(m, f):
+        frame = set(g.params)           # the frame text and its re-slices
+        assigns = [x for x in ast.walk(g.node) if isinstance(x, ast.Assign)
+                   and isinstance(x.targets[0], ast.Name)]
+        # names that are (re)bound to a slice of a frame variable are frames
+        changed = True
+        while changed:
+            changed = False
+            for a in assigns:
+                if a.targets[0].id not in frame and isinstance(
+                        a.value, (ast.Subscript, ast.Name, ast.Constant)) \
+                        and any(isinstance(x, ast.Name) and x.id in frame
+                                for x in ast.walk(a.value)) and \
+                        isinstance(a.value, (ast.Subscript, ast.Name)):
+                    frame.add(a.targets[0].id)
+                    changed = True
+
+        def base(expr, var):
+            return {x.id for x in ast.walk(expr) if isinstance(x, ast.Name)
+                    and x.id not in frame and x.id != var and
+                    x.id not in ('len', 'int', 'str')}
+        for c in ast.walk(g.node):
+            if not (isinstance(c, ast.Compare) and len(c.ops) == 1 and
+                    isinstance(c.ops[0], (ast.Gt, ast.GtE, ast.Lt,
+                                          ast.LtE))):
+                continue
+            sides = [c.left, c.comparators[0]]
+            consts = [x for x in sides if isinstance(x, ast.Constant) and
+                      isinstance(x.value, int) and x.value >= 10]
+            if not consts:
+                continue
+            other = sides[0] if sides[1] is consts[0] else sides[1]
+            names = [x.id for x in ast.walk(other) if isinstance(x, ast.Name)
+                     and x.id not in frame]
+            if not names:
+                continue
+            var = names[0]
+            inits = [a for a in assigns if a.targets[0].id == var and
+                     a.lineno < c.lineno]
+            if not inits:
+                continue
+            n += 1
+            need = set()
+            for a in inits:
+                need |= base(a.value, var)
+            have = base(other, var)
+            ctx.check(need <= have, 'Packet.' + g.name if g.cls else g.name,
+                      'the limit `%s` is measured from the position its '
+                      'index was initialised from' % U(c),
+                      key='bound-origin ' + var,
+                      reason='`%s` limits `%s`, which was initialised '
+                      'relative to %s (%s), but the comparison does not '
+                      'mention it: the limit counts from the start of the '
+                      'frame and shrinks by the length of the preceding '
+                      'fields' % (U(c), var, sorted(need),
+                                  U(inits[-1])), where=where(g, c))
+    # (a missing limit is reported by the presence rules of r2_guards)
 
 
 def r3_own_transport(ctx, fam):
